@@ -25,7 +25,9 @@ CharEq(a, b, icase) == IF icase THEN FoldC(a) = FoldC(b) ELSE a = b
 RECURSIVE Ends(_, _, _, _), StarClosure(_, _, _, _), RepEnds(_, _, _, _, _, _)
 Ends(e, s, i, icase) ==
   IF e.t = "c" THEN (IF i <= Len(s) /\ CharEq(s[i], e.c, icase) THEN {i + 1} ELSE {})
+  \* '.' does not match a newline in the emacs syntax; in the others ("anynl": see WithSyntax) it matches every character
   ELSE IF e.t = "any" THEN (IF i <= Len(s) /\ s[i] # 10 THEN {i + 1} ELSE {})
+  ELSE IF e.t = "anynl" THEN (IF i <= Len(s) THEN {i + 1} ELSE {})
   ELSE IF e.t = "set" THEN
        (IF i <= Len(s) /\ ((\E c \in e.cs : CharEq(s[i], c, icase)) # e.neg) THEN {i + 1} ELSE {})
   ELSE IF e.t = "cat" THEN UNION {Ends(e.b, s, k, icase) : k \in Ends(e.a, s, i, icase)}
@@ -44,6 +46,15 @@ RepEnds(a, s, S, must, may, icase) ==
   ELSE S
 
 InLang(e, s, icase) == (Len(s) + 1) \in Ends(e, s, 1, icase)
+
+\* the tree as the syntax reads it: outside emacs a '.' also matches a newline (a negated bracket expression does so
+\* in every syntax)
+RECURSIVE WithSyntax(_, _)
+WithSyntax(e, syn) ==
+  IF e.t = "any" THEN (IF Canon(syn) = "emacs" THEN e ELSE [t |-> "anynl"])
+  ELSE IF e.t \in {"cat", "alt"} THEN [e EXCEPT !.a = WithSyntax(e.a, syn), !.b = WithSyntax(e.b, syn)]
+  ELSE IF e.t \in {"grp", "star", "plus", "opt", "rep"} THEN [e EXCEPT !.a = WithSyntax(e.a, syn)]
+  ELSE e
 
 (***************************************************************************)
 (* Concrete syntax.                                                        *)
